@@ -188,7 +188,11 @@ func (n *ThreadedNewsYAML) DeleteArticle(newsPath []string, articleID uint32, _ 
 
 	catName := newsPath[len(newsPath)-1]
 
-	cat := cats[catName]
+	cat, ok := cats[catName]
+	if !ok {
+		// no such category: nothing to delete, and no zero-valued item must appear under that name
+		return nil
+	}
 	delete(cat.Articles, articleID)
 	cats[catName] = cat
 
